@@ -296,7 +296,26 @@ func ruleT6(c *Ctx) {
 				if k, isK := ci.Common().Args[2].(*ssa.Const); isK && k.Int64() == t.ext<<3 {
 					ok = true
 				}
+				return
 			}
+			// through a shared helper: the /digit is one of its arguments
+			h := ci.Common().StaticCallee()
+			if h == nil || h.Pkg != g.Pkg || len(h.Blocks) == 0 {
+				return
+			}
+			bind := map[ssa.Value]ssa.Value{}
+			for i, prm := range h.Params {
+				if i < len(ci.Common().Args) {
+					bind[prm] = ci.Common().Args[i]
+				}
+			}
+			callsIn(h, func(cj ssa.CallInstruction) {
+				if strings.HasSuffix(calleeName(cj.Common()), ".calculateModRM") {
+					if v, isK := evalConstBound(cj.Common().Args[2], bind, 0); isK && v == t.ext<<3 {
+						ok = true
+					}
+				}
+			})
 		})
 		c.check(ok, "T6", fmt.Sprintf("%s|/%d extension", t.fn, t.ext), c.L.Pos(g.Pos()), fmt.Sprintf("%s m uses opcode extension /%d in the reg field", strings.TrimPrefix(t.fn, "handle"), t.ext))
 	}
@@ -941,4 +960,41 @@ func paramModeQuery(prm *ssa.Parameter) string {
 		}
 	}
 	return ""
+}
+
+
+// evalConstBound evaluates an integer expression whose leaves are constants or parameters bound
+// to constants by the given call-site binding.
+func evalConstBound(v ssa.Value, bind map[ssa.Value]ssa.Value, depth int) (int64, bool) {
+	if depth > 8 {
+		return 0, false
+	}
+	if a, ok := bind[v]; ok {
+		return evalConstBound(a, nil, depth+1)
+	}
+	switch x := v.(type) {
+	case *ssa.Const:
+		if isIntConst(x) {
+			return x.Int64(), true
+		}
+	case *ssa.Convert:
+		return evalConstBound(x.X, bind, depth+1)
+	case *ssa.BinOp:
+		l, ok1 := evalConstBound(x.X, bind, depth+1)
+		r, ok2 := evalConstBound(x.Y, bind, depth+1)
+		if !ok1 || !ok2 {
+			return 0, false
+		}
+		switch x.Op {
+		case token.SHL:
+			return l << uint(r), true
+		case token.MUL:
+			return l * r, true
+		case token.ADD:
+			return l + r, true
+		case token.OR:
+			return l | r, true
+		}
+	}
+	return 0, false
 }
